@@ -121,7 +121,7 @@ def run(tier, seed):
                     "distinct_nontrivial": len(rows) + len(fns), "exhaustive": True,
                     "rule": f"(1) every lambda-list shape (0-2 required x 0-2 optional x rest x 0-2 keys x aux, default kinds none / form / form using "
                             f"an earlier parameter{'' if quick else ' / literal'}) x every call (0-{4 if quick else 5} positional, <=2 keyword pairs over "
-                            "two declared and one undeclared key, with / without a dangling keyword), through a direct call, funcall and apply, plus a body "
+                            "two declared and one undeclared key, with / without a dangling keyword, with nil as the last positional argument or as the value of the first pair; &allow-other-keys after the keys against calls with an undeclared key), through a direct call, funcall and apply, plus a body "
                             "that ignores its parameters; and the same for functions redefined from another lambda list, called through call sites "
                             "compiled before the redefinition; expected bindings computed by TLC from LambdaList.tla (Bind); "
                             f"(2) all {len(fns)} registered functions of all packages called with n = 0..max+2 arguments of the documented types; the "
